@@ -606,10 +606,12 @@ def stream_tv(ctx, model):
 
 
 def stream_setdist(ctx, model):
-    """SetDistance / SquaredSetDistance for a box (`clip`) and for a subspace (`P z = M z`) projection at
-    points outside the set.  Near such a point a box projection is affine, `P z = D z + b` (D = 0/1 diagonal of the
-    coordinates that are not clipped), so the functional is `‖(I-D) z - b‖` resp. `0.5‖·‖²` there: the model
-    expression `Loss(b, I-D, L2Norm | 0.5 SquaredL2Norm)` (theorems C07_scaled_sum / C07_set_distance)."""
+    """SetDistance / SquaredSetDistance for a box (`clip`) and for a subspace (`P z = M z`) projection at points
+    outside the set and (box) in its interior.  Near a point off the faces a box projection is affine,
+    `P z = D z + b` (D = 0/1 diagonal of the coordinates that are not clipped), so the functional is the guarded
+    square root of `‖(I-D) z - b‖²` resp. `0.5‖·‖²` there: the model expression `Loss(b, I-D, g)` with `g` the
+    single-group guarded l2 norm (`L21Norm._l2norm` idiom, code after 8f5a90e) | `0.5 SquaredL2Norm` (theorems
+    C07_scaled_sum / C07_group_norm_structural_zero / C07_set_distance / C07_set_distance_interior)."""
     import scico.numpy as snp
     from scico import functional
 
@@ -619,9 +621,13 @@ def stream_setdist(ctx, model):
         squared = bool(rng.random() < 0.5)
         kind = "box" if rng.random() < 0.6 else "subspace"
         x = G.dy(rng, (n,), False, nz=True) + 2.0**-6
+        interior = False
         if kind == "box":
             lo, hi = -0.5, 0.75
-            if not np.any((x < lo) | (x > hi)):
+            if rng.random() < 0.3:
+                x = 0.125 + x / 8.0  # interior of the box: the distance is identically 0 nearby
+                interior = True
+            elif not np.any((x < lo) | (x > hi)):
                 x[int(rng.integers(n))] = 1.5
             if np.any(np.abs(x - lo) < 1e-6) or np.any(np.abs(x - hi) < 1e-6):
                 continue
@@ -637,13 +643,13 @@ def stream_setdist(ctx, model):
             if np.linalg.norm(x - D @ x) < 1e-3:
                 continue
         A = np.eye(n) - D
-        inner = {"k": "sqL2"} if squared else {"k": "l2"}
+        inner = {"k": "sqL2"} if squared else {"k": "l21", "axis": None, "groups": 1, "grp": [0] * n}
         t = {"k": "loss", "s": 0.5 if squared else 1.0, "op": {"kind": "matrix", "m": n, "M": G.enc(A)}, "y": G.enc(b), "f": inner}
         f = (functional.SquaredSetDistance if squared else functional.SetDistance)(proj)
         X = snp.array(x)
         got = model.call("fn", n=n, x=G.cv(x), f=G.to_model(t, n))
-        ctx.case({"tag": "setdist", "kind": kind, "squared": squared, "n": n}, ("setdist", kind, squared, n))
-        ctx.count(f"setdist:{kind}:{'squared' if squared else 'distance'}")
+        ctx.case({"tag": "setdist", "kind": kind, "squared": squared, "n": n, "interior": interior}, ("setdist", kind, squared, n, interior))
+        ctx.count(f"setdist:{kind}:{'squared' if squared else 'distance'}:{'interior' if interior else 'outside'}")
 
         def orc(c, f=f, X=X, n=n):
             gg = np.asarray(f.grad(X)).ravel()
@@ -1330,6 +1336,81 @@ def stream_heap(ctx, model):
                     break
 
 
+def _heap_histories(depth):
+    """ALL histories `new; op_1; ...; op_k` (k <= depth) over {new, c*obj, obj*c, obj/c, obj.set_scale} with every
+    choice of the object operated on (fixed dyadic constants: the machine's behaviour does not depend on them)"""
+    out = []
+
+    def rec(ops, cnt, k):
+        out.append(list(ops))
+        if k == 0:
+            return
+        rec(ops + [{"k": "new", "s": 2.0}], cnt + 1, k - 1)
+        for o in range(cnt):
+            rec(ops + [{"k": "mul", "obj": o, "c": 3.0, "side": "l"}], cnt + 1, k - 1)
+            rec(ops + [{"k": "mul", "obj": o, "c": -0.5, "side": "r"}], cnt + 1, k - 1)
+            rec(ops + [{"k": "div", "obj": o, "c": 4.0}], cnt + 1, k - 1)
+            rec(ops + [{"k": "set", "obj": o, "s": 0.75}], cnt, k - 1)
+
+    rec([{"k": "new", "s": 1.5}], 1, depth)
+    return out
+
+
+def stream_heap_exhaustive(ctx, model):
+    """exhaustive small scope of the copy / re-bind machine: every history up to depth 2 (quick) / 3 (thorough)
+    on a SquaredL2Loss (value, gradient and Hessian scale of EVERY object after the history)"""
+    import scico.numpy as snp
+
+    depth = ctx.n(2, 3)
+    hs = _heap_histories(depth)
+    fseed, n, cplx = 20260930, 2, True
+    mk = _loss_factory("SquaredL2Loss", np.random.Generator(np.random.PCG64(fseed)), n, cplx)
+    unit = mk(1.0)
+    x = np.array([0.5 - 1.0j, -1.25 + 0.25j])
+    X = snp.array(x)
+    base_val = float(unit(X))
+    base_grad = np.asarray(unit.grad(X)).ravel().astype(np.complex128)
+    base_hess = np.asarray(unit.hessian(X)).ravel().astype(np.complex128)
+    orc = heap_oracle_factory("SquaredL2Loss", None)
+    for ops in hs:
+        mops = []
+        for op in ops:
+            o = {"k": op["k"]}
+            for key in ("s", "c"):
+                if key in op:
+                    o[key] = f2b(op[key])
+            if "obj" in op:
+                o["obj"] = op["obj"]
+            mops.append(o)
+        got = model.call("heap", ops=mops)
+        objs = run_history(mk, ops)
+        case = {"kind": "SquaredL2Loss", "cplx": cplx, "n": n, "factory_seed": fseed, "ops": ops, "x": G.enc(x)}
+        ctx.case({"tag": "heap_exhaustive", "ops": [o["k"] for o in ops]}, ("heapx", tuple((o["k"], o.get("obj"), o.get("side")) for o in ops)))
+        ctx.count("heapx:histories")
+        if len(objs) != len(got["eval"]):
+            raise common.Infra("heap: object count mismatch")
+        for i, o in enumerate(objs):
+            se, sg = common.b2f(got["eval"][i]), common.b2f(got["grad"][i])
+            g = np.asarray(o.grad(X)).ravel().astype(np.complex128)
+            hx = np.asarray(o.hessian(X)).ravel().astype(np.complex128)
+            bad = None
+            if not common.close(float(o.scale), se):
+                bad = ("heap.scale", {"object": i, "scale": float(o.scale)}, se)
+            elif not common.close(float(o(X)), se * base_val, TOLK):
+                bad = ("heap.eval", {"object": i, "value": float(o(X))}, se * base_val)
+            elif not (common.allclose(g.real, (sg * base_grad).real, TOLK) and common.allclose(g.imag, (sg * base_grad).imag, TOLK)):
+                bad = ("heap.grad", {"object": i, "grad": G.enc(g)}, {"grad_scale": sg, "grad": G.enc(sg * base_grad)})
+            elif not (common.allclose(hx.real, (se * base_hess).real, TOLK) and common.allclose(hx.imag, (se * base_hess).imag, TOLK)):
+                bad = ("heap.hessian", {"object": i, "hessian(x)": G.enc(hx)}, {"scale": se, "hessian(x)": G.enc(se * base_hess)})
+            if bad:
+                ctx.disagree(bad[0], case, bad[1], bad[2], oracle=orc)
+                break
+    ctx.extra.setdefault("exhaustive_scopes", {})["loss copy/re-bind machine"] = (
+        f"all {len(hs)} histories new;op1..opk, k<={depth}, ops in {{new, c*obj, obj*c, obj/c, set_scale}} x every object")
+    ctx.extra["exhaustive_scopes"]["Function/cvjp argument slots"] = "all (index, arity) with arity <= 4"
+    ctx.extra["exhaustive_scopes"]["linear_adjoint dtype configurations"] = "all 8 (primal kinds)^2 x output kind; all 4 single-primal cases"
+
+
 # --------------------------------------------------------------------------------------------
 # scico.grad with argnums / has_aux, jacrev, linear_adjoint
 
@@ -1678,7 +1759,7 @@ def correspond(ctx, model):
     common.setup_scico()
     warnings.filterwarnings("ignore", message="Casting complex values to real")
     for stream in (run_corpus, stream_boundary, stream_l21, stream_tv, stream_setdist, stream_fn, stream_blocks, stream_single, stream_real_arg,
-                   stream_div_reject, stream_jac, stream_jac_mixed, stream_function, stream_hess, stream_heap, stream_autograd_api, stream_linadj2):
+                   stream_div_reject, stream_jac, stream_jac_mixed, stream_function, stream_hess, stream_heap, stream_heap_exhaustive, stream_autograd_api, stream_linadj2):
         _guard(ctx, model, stream)
 
 
@@ -1778,7 +1859,7 @@ def findings(ctx, model):
     else:
         ctx.known_finding(ISOTV, False)
     # SquaredSetDistance is C^1 everywhere (gradient x - P(x), zero on the set); SetDistance is identically zero
-    # near interior points of the set: NaN there is a defect (both differentiate through norm(0))
+    # near interior points of the set: NaN there is a defect (before /repo 8f5a90e both differentiated through norm(0))
     Pbox = lambda v: snp.clip(v, 0.0, 1.0)  # noqa: E731
     xin = snp.array(np.array([0.25, 0.5, 0.75]))
     badd = {}
